@@ -43,16 +43,17 @@ Theorem C09_fuel_independent : forall opq oc tc o c r n m,
 Proof. exact check_fuel_deterministic. Qed.
 
 (* no panic: on a well-formed specification ([wf_univ], computable: every name mentioned in the
-   normalised specification is defined, no disjunction is empty) the unreachable!() / index / assert
-   sites of the loop are dead — the verdict is Accept or Reject *)
+   normalised specification is defined) the unreachable!() / index / assert sites of the loop are
+   dead — the verdict is Accept or Reject *)
 Theorem C09_check_never_panics : forall opq oc tc o c,
   (forall r, resolve tc c = Some r -> wf_univ tc (norm_chk (rep_chk r)) = true) ->
   fst (check opq oc tc o c) <> Panicked.
 Proof. exact check_never_panics_wf. Qed.
-(* the side condition is needed: an empty disjunction reaches unreachable!() *)
-Example C09_empty_disjunct_panics :
-  fst (check opq_default [] [] (OInt 5) (CRep (TDisj []) None IAllowed)) = Panicked.
-Proof. vm_compute. reflexivity. Qed.
+(* an empty disjunction is a specification like any other: nothing conforms to it *)
+Example C09_empty_disjunct_rejects :
+  fst (check opq_default [] [] (OInt 5) (CRep (TDisj []) None IAllowed)) = Reject EValue /\
+  wf_univ [] (norm_chk (CRep (TDisj []) None IAllowed)) = true.
+Proof. vm_compute. split; reflexivity. Qed.
 
 Theorem C09_unresolved_root : forall opq oc tc o c,
   resolve tc c = None -> check opq oc tc o c = (SpecErr EUnknown, 0).
